@@ -434,6 +434,26 @@ var $pointerOfStructConversion = (obj, type) => {
     return proxy;
 };
 
+// Converts a pointer to another pointer type with the same base type (e.g. `type NP *int; NP(p)`). The results
+// of converting one pointer are shared, one object per pointer type, among all the pointers converted from each
+// other, so that pointer identity (==, map keys) survives conversions in either direction.
+var $pointerConversion = (ptr, type, get, set) => {
+    if (ptr === ptr.constructor.nil) {
+        return type.nil;
+    }
+    if (ptr.$conversions === undefined) {
+        ptr.$conversions = {};
+        ptr.$conversions[ptr.constructor.id] = ptr;
+    }
+    var converted = ptr.$conversions[type.id];
+    if (converted === undefined) {
+        converted = new type(() => { return get(ptr); }, v => { set(ptr, v); }, ptr.$target);
+        converted.$conversions = ptr.$conversions;
+        ptr.$conversions[type.id] = converted;
+    }
+    return converted;
+};
+
 var $append = function (slice) {
     return $internalAppend(slice, arguments, 1, arguments.length - 1);
 };
